@@ -86,4 +86,21 @@ CleanupGuarantees(R, isolates, singletons, multiedges, connected, relabel) ==
   /\ (~isolates => NoIsolates(R)) /\ (~singletons => NoSingletons(R))
   /\ (~multiedges => NoMultiEdges(R)) /\ (connected => Cardinality(Components(R)) <= 1)
   /\ (relabel => Relabelled(R))
+
+(* ---- DiHypergraph.cleanup(isolates, relabel): plain sequences instead of a state record ---- *)
+\* dn / di / dt / dh: nodes, edge ids, tails, heads of the argument; rn / ri / rt / rh: of the result, in the
+\* result's own labels; on / oe: the old label of every node / edge of the result (recorded by the
+\* relabelling, the labels themselves otherwise)
+DiCleanupOK(isolates, relabel, dn, di, dt, dh, rn, ri, rt, rh, on, oe) ==
+  LET inc == UNION {Range(dt[k]) \cup Range(dh[k]) : k \in DOMAIN di}
+      kept == IF isolates THEN Range(dn) ELSE Range(dn) \cap inc
+      old(x) == on[Idx(rn, x)]
+  IN /\ NoDup(rn) /\ NoDup(ri) /\ NoDup(on) /\ NoDup(oe)
+     /\ Len(on) = Len(rn) /\ Len(oe) = Len(ri)
+     /\ Range(on) = kept /\ Range(oe) = Range(di)            \* only isolated nodes are deleted, no edge is
+     /\ (relabel => rn = [k \in 1..Len(rn) |-> k - 1] /\ ri = [k \in 1..Len(ri) |-> k - 1])
+     /\ (~relabel => rn = on /\ ri = oe)
+     /\ \A k \in DOMAIN ri : LET s == Idx(di, oe[k]) IN
+          /\ Range(rt[k]) \subseteq Range(rn) /\ Range(rh[k]) \subseteq Range(rn)
+          /\ {old(x) : x \in Range(rt[k])} = Range(dt[s]) /\ {old(x) : x \in Range(rh[k])} = Range(dh[s])
 =============================================================================
